@@ -10,7 +10,9 @@ package gocvss31
 func VerifBytes(c *CVSS31) [6]uint8 { return [6]uint8{c.u0, c.u1, c.u2, c.u3, c.u4, c.u5} }
 
 // VerifFromBytes builds an object from a packed representation (any bytes).
-func VerifFromBytes(b [6]uint8) *CVSS31 { return &CVSS31{u0: b[0], u1: b[1], u2: b[2], u3: b[3], u4: b[4], u5: b[5]} }
+func VerifFromBytes(b [6]uint8) *CVSS31 {
+	return &CVSS31{u0: b[0], u1: b[1], u2: b[2], u3: b[3], u4: b[4], u5: b[5]}
+}
 
 // VerifLenVec exposes lenVec, the pre-computed length used by Vector.
 func VerifLenVec(c *CVSS31) int { return lenVec(c) }
